@@ -194,6 +194,69 @@ theorem iterRest_rt {pid : Key} {s : SetShape} (ih : RT pid s) (hrf : restFree s
         subst e1 e2
         simp [allOk, hval hmc ha.1 hc1, hvals hmc ha.2 hc2]
 
+theorem all2_length {f : DecodeArg → ClientVal → Bool} : ∀ (as : List DecodeArg) (vs : List ClientVal),
+    all2 f as vs = true → as.length = vs.length := by
+  intro as
+  induction as with
+  | nil => intro vs h; cases vs <;> simp [all2] at h ⊢
+  | cons a as ih =>
+    intro vs h
+    cases vs with
+    | nil => simp [all2] at h
+    | cons v vs => simp only [all2, Bool.and_eq_true] at h; simp [ih vs h.2]
+
+theorem iterEach_rt {pid : Key} {s : SetShape} (ih : RT pid s) (hrf : restFree s = true) :
+    ∀ (as : List DecodeArg) (vs : List ClientVal) (accts tail : List Acct),
+      all2 (fits pid s) as vs = true →
+      All2 KeyEq accts (vs.flatMap (clientMetas pid s)) →
+      ∃ svs, iterEach (decode pid s) as (accts ++ tail) = .ok (svs, tail) ∧
+        RTList pid s vs accts svs := by
+  intro as
+  induction as with
+  | nil =>
+    intro vs accts tail hf h
+    cases vs with
+    | nil =>
+      cases h
+      exact ⟨[], by simp [iterEach], by simp [RTList, allOk]⟩
+    | cons v vs => simp [all2] at hf
+  | cons a as ihl =>
+    intro vs accts tail hf h
+    cases vs with
+    | nil => simp [all2] at hf
+    | cons v vs =>
+    simp only [all2, Bool.and_eq_true] at hf
+    rw [List.flatMap_cons] at h
+    obtain ⟨a1, a2, rfl, h1, h2⟩ := h.split
+    obtain ⟨sv, hd, hty, hcl, hval⟩ := ih a v a1 (a2 ++ tail) hf.1 h1 (Or.inl hrf)
+    obtain ⟨svs, hds, hlen, htys, hcls, hvals⟩ := ihl vs a2 tail hf.2 h2
+    refine ⟨sv :: svs, ?_, ?_, ?_, ?_, ?_⟩
+    · simp only [iterEach, List.append_assoc, hd, hds]
+    · simp [hlen]
+    · simp [hty, htys]
+    · simp [hcl, hcls]
+    · intro hmc ha hc
+      simp only [List.all_cons, Bool.and_eq_true] at ha
+      rw [List.flatMap_cons] at hc
+      obtain ⟨c1, c2, hsplit, hc1, hc2⟩ := hc.split
+      have hl1 : c1.length = a1.length := by rw [hc1.length_eq, h1.length_eq]
+      have ⟨e1, e2⟩ := List.append_inj hsplit hl1.symm
+      subst e1 e2
+      simp [allOk, hval hmc ha.1 hc1, hvals hmc ha.2 hc2]
+
+theorem fits_arr_pass (pid : Key) (n : Nat) (s : SetShape) (arg : DecodeArg) (vs : List ClientVal)
+    (hna : ∀ as, arg ≠ .arrEach as) :
+    fits pid (.arr n s) arg (.many vs) = (vs.length == n && restFree s && vs.all (fits pid s arg)) := by
+  cases arg <;> first | rfl | exact absurd rfl (hna _)
+
+theorem decode_arr_pass (pid : Key) (n : Nat) (s : SetShape) (arg : DecodeArg) (accts : List Acct)
+    (hna : ∀ as, arg ≠ .arrEach as) :
+    decode pid (.arr n s) arg accts =
+      (match iterN (decode pid s arg) n accts with
+       | .error e => .error e
+       | .ok (vs, r) => .ok (.many vs, r)) := by
+  cases arg <;> first | rfl | exact absurd rfl (hna _)
+
 theorem fields_rt {pid : Key} :
     ∀ (fs : List SetShape), (∀ s ∈ fs, RT pid s) →
       ∀ (as : List DecodeArg) (vs : List ClientVal) (accts tail : List Acct),
@@ -354,23 +417,56 @@ theorem rt_all (pid : Key) : ∀ s, RT pid s := by
           simp only [clientMetas] at hc
           simpa [validate] using hval hmc ha hc
       | _ => simp [fits] at hf
+    | each as =>
+      cases v with
+      | many vs =>
+        simp only [fits, Bool.and_eq_true] at hf
+        obtain ⟨hrf, hall⟩ := hf
+        simp only [clientMetas] at h
+        obtain ⟨svs, hd, hl, hty, hcl, hval⟩ := iterEach_rt ih hrf as vs accts tail hall h
+        refine ⟨.many svs, ?_, by simpa [svTyped] using hty, by simp [toClient, resolve, hcl], ?_⟩
+        · simp [decode, hd]
+        · intro hmc ha hc
+          simp only [addrOk] at ha
+          simp only [metaCovers] at hmc
+          simp only [clientMetas] at hc
+          simpa [validate] using hval hmc ha hc
+      | _ => simp [fits] at hf
     | _ => cases v <;> simp [fits] at hf
   | harr n s ih =>
     intro arg v accts tail hf h _
     cases v with
     | many vs =>
-      simp only [fits, Bool.and_eq_true, beq_iff_eq] at hf
-      obtain ⟨⟨hlen, hrf⟩, hall⟩ := hf
-      simp only [clientMetas] at h
-      obtain ⟨svs, hd, hl, hty, hcl, hval⟩ := iterN_rt ih hrf arg vs accts tail hall h
-      refine ⟨.many svs, ?_, ?_, by simp [toClient, resolve, hcl], ?_⟩
-      · simp [decode, ← hlen, hd]
-      · simp [svTyped, hty, hl, hlen]
-      · intro hmc ha hc
-        simp only [addrOk] at ha
-        simp only [metaCovers] at hmc
-        simp only [clientMetas] at hc
-        simpa [validate] using hval hmc ha hc
+      by_cases hna : ∀ as, arg ≠ .arrEach as
+      · rw [fits_arr_pass pid n s arg vs hna] at hf
+        simp only [Bool.and_eq_true, beq_iff_eq] at hf
+        obtain ⟨⟨hlen, hrf⟩, hall⟩ := hf
+        simp only [clientMetas] at h
+        obtain ⟨svs, hd, hl, hty, hcl, hval⟩ := iterN_rt ih hrf arg vs accts tail hall h
+        refine ⟨.many svs, ?_, ?_, by simp [toClient, resolve, hcl], ?_⟩
+        · rw [decode_arr_pass pid n s arg _ hna, ← hlen, hd]
+        · simp [svTyped, hty, hl, hlen]
+        · intro hmc ha hc
+          simp only [addrOk] at ha
+          simp only [metaCovers] at hmc
+          simp only [clientMetas] at hc
+          simpa [validate] using hval hmc ha hc
+      · have ⟨as, has⟩ : ∃ as, arg = .arrEach as := by
+          cases arg <;> first | exact ⟨_, rfl⟩ | (exfalso; apply hna; intro as h'; cases h')
+        subst has
+        simp only [fits, Bool.and_eq_true, beq_iff_eq] at hf
+        obtain ⟨⟨hlen, hrf⟩, hall⟩ := hf
+        simp only [clientMetas] at h
+        obtain ⟨svs, hd, hl, hty, hcl, hval⟩ := iterEach_rt ih hrf as vs accts tail hall h
+        have hasn : as.length = n := by rw [all2_length as vs hall, hlen]
+        refine ⟨.many svs, ?_, ?_, by simp [toClient, resolve, hcl], ?_⟩
+        · simp [decode, hasn, hd]
+        · simp [svTyped, hty, hl, hlen]
+        · intro hmc ha hc
+          simp only [addrOk] at ha
+          simp only [metaCovers] at hmc
+          simp only [clientMetas] at hc
+          simpa [validate] using hval hmc ha hc
     | _ => cases arg <;> simp [fits] at hf
   | hboxed s ih =>
     intro arg v accts tail hf h htail
@@ -518,6 +614,23 @@ theorem clientMetas_resolve (pid : Key) : ∀ s v, typed s v = true →
     simp only [resolve, clientMetas]
     exact (flatMap_map_congr _ _ _ _ (fun x hx => (ih x (h x hx)).symm)).symm
 
+theorem all2_forall {f : DecodeArg → ClientVal → Bool} {P : ClientVal → Prop}
+    (hP : ∀ a v, f a v = true → P v) : ∀ (as : List DecodeArg) (vs : List ClientVal),
+    all2 f as vs = true → ∀ v ∈ vs, P v := by
+  intro as
+  induction as with
+  | nil => intro vs h; cases vs <;> simp [all2] at h ⊢
+  | cons a as ih =>
+    intro vs h
+    cases vs with
+    | nil => simp
+    | cons v vs =>
+      simp only [all2, Bool.and_eq_true] at h
+      intro x hx
+      rcases List.mem_cons.mp hx with rfl | hx
+      · exact hP a _ h.1
+      · exact ih vs h.2 x hx
+
 /-- `fits` implies `typed`. -/
 theorem fits_typed (pid : Key) : ∀ s arg v, fits pid s arg v = true → typed s v = true := by
   intro s
@@ -531,13 +644,26 @@ theorem fits_typed (pid : Key) : ∀ s arg v, fits pid s arg v = true → typed 
   | hvec s ih =>
     intro arg v h
     cases arg <;> cases v <;> simp [fits] at h
-    simp only [typed, List.all_eq_true]
-    exact fun x hx => ih _ x (h.2 x hx)
+    · simp only [typed, List.all_eq_true]
+      exact fun x hx => ih _ x (h.2 x hx)
+    · simp only [typed, List.all_eq_true]
+      exact all2_forall (fun a v hv => ih a v hv) _ _ h.2
   | harr n s ih =>
     intro arg v h
-    cases v <;> simp [fits] at h
-    simp only [typed, Bool.and_eq_true, beq_iff_eq, List.all_eq_true]
-    exact ⟨h.1.1, fun x hx => ih _ x (h.2 x hx)⟩
+    cases v with
+    | many vs =>
+      by_cases hna : ∀ as, arg ≠ .arrEach as
+      · rw [fits_arr_pass pid n s arg vs hna] at h
+        simp only [Bool.and_eq_true, beq_iff_eq, List.all_eq_true] at h
+        simp only [typed, Bool.and_eq_true, beq_iff_eq, List.all_eq_true]
+        exact ⟨h.1.1, fun x hx => ih _ x (h.2 x hx)⟩
+      · have ⟨as, has⟩ : ∃ as, arg = .arrEach as := by
+          cases arg <;> first | exact ⟨_, rfl⟩ | (exfalso; apply hna; intro as h'; cases h')
+        subst has
+        simp only [fits, Bool.and_eq_true, beq_iff_eq] at h
+        simp only [typed, Bool.and_eq_true, beq_iff_eq, List.all_eq_true]
+        exact ⟨h.1.1, all2_forall (fun a v hv => ih a v hv) _ _ h.2⟩
+    | _ => cases arg <;> simp [fits] at h
   | hboxed s ih => intro arg v h; simpa [typed] using ih arg v (by simpa [fits] using h)
   | hstruct fs ih =>
     intro arg v h
@@ -809,42 +935,90 @@ theorem drop_leN_append (w n : Nat) (r : List Nat) : (leN w n ++ r).drop w = r :
   rw [List.drop_append_of_le_length (by simp)]
   simp [List.drop_of_length_le]
 
-theorem deArg_serArg : ∀ s arg r, argTyped s arg = true → argInRange arg = true →
-    deArg s (serArg arg ++ r) = some (arg, r) := by
-  intro s
-  induction s using SetShape.ind with
-  | hsingle sg wr fk cs => intro arg r h _; cases arg <;> simp [argTyped] at h; simp [deArg, serArg]
-  | hopt s ih => intro arg r h hr; simpa [deArg] using ih arg r (by simpa [argTyped] using h) hr
-  | hvec s ih =>
+section ArgTyInduction
+set_option linter.unusedSectionVars false
+variable {P : ArgTy → Prop}
+  (hunit : P .unit) (hlen : ∀ t, P t → P (.len t)) (heach : ∀ n t, P t → P (.each n t))
+  (harrEach : ∀ n t, P t → P (.arrEach n t)) (hfields : ∀ ts, (∀ t ∈ ts, P t) → P (.fields ts))
+include hunit hlen heach harrEach hfields
+mutual
+theorem ArgTy.ind : (t : ArgTy) → P t
+  | .unit => hunit
+  | .len t => hlen t (ArgTy.ind t)
+  | .each n t => heach n t (ArgTy.ind t)
+  | .arrEach n t => harrEach n t (ArgTy.ind t)
+  | .fields ts => hfields ts (ArgTy.indList ts)
+theorem ArgTy.indList : (ts : List ArgTy) → ∀ t ∈ ts, P t
+  | [] => fun _ h => nomatch h
+  | x :: xs => fun t h =>
+    (List.mem_cons.mp h).elim (fun e => e ▸ ArgTy.ind x) (ArgTy.indList xs t)
+end
+end ArgTyInduction
+
+theorem deRep_serArgs (t : ArgTy)
+    (ih : ∀ arg r, hasTy t arg = true → argInRange arg = true → deArg t (serArg arg ++ r) = some (arg, r)) :
+    ∀ (as : List DecodeArg) (r : List Nat), as.all (hasTy t) = true → argsInRange as = true →
+      deRep (deArg t) as.length (serArgs as ++ r) = some (as, r) := by
+  intro as
+  induction as with
+  | nil => intro r _ _; simp [deRep, serArgs]
+  | cons a as ihl =>
+    intro r h hr
+    simp only [List.all_cons, Bool.and_eq_true] at h
+    simp only [argsInRange, Bool.and_eq_true] at hr
+    simp only [List.length_cons, deRep, serArgs, List.append_assoc]
+    rw [ih a _ h.1 hr.1]
+    simp only []
+    rw [ihl r h.2 hr.2]
+
+theorem deArg_serArg : ∀ t arg r, hasTy t arg = true → argInRange arg = true →
+    deArg t (serArg arg ++ r) = some (arg, r) := by
+  intro t
+  induction t using ArgTy.ind with
+  | hunit => intro arg r h _; cases arg <;> simp [hasTy] at h; simp [deArg, serArg]
+  | hlen t ih =>
     intro arg r h hr
-    cases arg <;> simp [argTyped] at h
+    cases arg <;> simp [hasTy] at h
     rename_i n inner
     simp only [argInRange, Bool.and_eq_true, decide_eq_true_eq] at hr
     simp only [serArg, deArg, List.append_assoc]
     have hlen : ¬ (leN 8 n ++ (serArg inner ++ r)).length < 8 := by simp
     rw [if_neg hlen, take_leN_append, drop_leN_append, ih inner r h hr.2, rdLE_leN 8 n hr.1]
-  | harr n s ih => intro arg r h hr; simpa [deArg] using ih arg r (by simpa [argTyped] using h) hr
-  | hboxed s ih => intro arg r h hr; simpa [deArg] using ih arg r (by simpa [argTyped] using h) hr
-  | hstruct fs ih =>
+  | heach n t ih =>
     intro arg r h hr
-    cases arg <;> simp [argTyped] at h
+    cases arg <;> simp [hasTy] at h
     rename_i as
     simp only [argInRange] at hr
     simp only [serArg, deArg]
-    suffices hs : deArgFields fs (serArgs as ++ r) = some (as, r) by rw [hs]
-    induction fs generalizing as with
-    | nil => cases as <;> simp [argTypedFields] at h; simp [deArgFields, serArgs]
+    have hall : as.all (hasTy t) = true := by simpa [List.all_eq_true] using h.2
+    rw [← h.1, deRep_serArgs t ih as r hall hr]
+  | harrEach n t ih =>
+    intro arg r h hr
+    cases arg <;> simp [hasTy] at h
+    rename_i as
+    simp only [argInRange] at hr
+    simp only [serArg, deArg]
+    have hall : as.all (hasTy t) = true := by simpa [List.all_eq_true] using h.2
+    rw [← h.1, deRep_serArgs t ih as r hall hr]
+  | hfields ts ih =>
+    intro arg r h hr
+    cases arg <;> simp [hasTy] at h
+    rename_i as
+    simp only [argInRange] at hr
+    simp only [serArg, deArg]
+    suffices hs : deArgFields ts (serArgs as ++ r) = some (as, r) by rw [hs]
+    induction ts generalizing as with
+    | nil => cases as <;> simp [hasTyFields] at h; simp [deArgFields, serArgs]
     | cons f fs ihl =>
       cases as with
-      | nil => simp [argTypedFields] at h
+      | nil => simp [hasTyFields] at h
       | cons a as =>
-        simp only [argTypedFields, Bool.and_eq_true] at h
+        simp only [hasTyFields, Bool.and_eq_true] at h
         simp only [argsInRange, Bool.and_eq_true] at hr
         simp only [serArgs, deArgFields, List.append_assoc]
         rw [ih f List.mem_cons_self a _ h.1 hr.1]
         simp only []
         rw [ihl (fun s hs => ih s (List.mem_cons_of_mem _ hs)) as h.2 hr.2]
-  | hrest s ih => intro arg r h hr; simpa [deArg] using ih arg r (by simpa [argTyped] using h) hr
 
 theorem deRun_serRun (x : RunArgs) (hx : x.WF) (r : List Nat) : deRun (serRun x ++ r) = some (x, r) := by
   obtain ⟨_, hb, hd, _⟩ := hx
